@@ -202,6 +202,11 @@ def render_via(prog, classes, w, entry, rtype, gc_between, budget):
             html = Template(emit.page_source(prog)).render(Context(dict(prog["ctx"])))
             if gc_between:
                 world.gc_now()
+                # the application flushes ITS OWN default cache (the project's CACHES["default"]) at this moment: none of
+                # the library's business - the media cache is the library's private one, or the one named by COMPONENTS.cache
+                from django.core.cache import caches
+
+                caches["default"].clear()
             if entry == "render_dependencies(str)":
                 return ("ok", render_dependencies(str(html), type=rtype))
             if entry == "render_dependencies(SafeString)":
